@@ -56,7 +56,12 @@ def peewee_v2_to_sqlite_v1(datastore):
             bucket["hostname"],
             bucket["created"],
             bucket["name"],
+            bucket["data"],
         )
         bucket_events = pw_db.get_events(bucket_id, -1)
+        # The events carry the ids they had in the old database. Events with an id are treated as updates of
+        # existing events by insert_many (and there are none in the new database), so drop the ids.
+        for event in bucket_events:
+            event.id = None
         datastore.insert_many(bucket_id, bucket_events)
     logger.info("Migration of peewee v2 to sqlite v1 finished")
